@@ -22,6 +22,10 @@ def _value_jobs(prop_id, family, scns, tier, seed, **kw):
     sim_extra = kw.pop("sim_extra", 3)
     sim_budget = kw.pop("sim_budget", sim_budget)
     bfs_empty_only = kw.pop("bfs_empty_only", False)
+    # power = (batches, max respondents, depth, behaviours): an additional simulation per
+    # scenario whose Interview steps add batches of identical respondents, so that tables
+    # hold enough cases for significance tests to fire
+    power = kw.pop("power", None)
     for s in scns:
         s = dict(s)
         ncfg = len(s.get("configs") or [1])
@@ -33,6 +37,13 @@ def _value_jobs(prop_id, family, scns, tier, seed, **kw):
         jobs.append(make_job(s, family, ("replay_basic", "replay"), mode="sim", seed=seed,
                              sim_num=num, sim_depth=depth + 1, sim_max_resp=depth,
                              prop_id=prop_id, timeout=120 if tier == "quick" else 1500, **kw))
+        if power:
+            batches, pmax, pdepth, pnum = power
+            ps = dict(s, name=s["name"] + ".big", batches=tuple(batches))
+            jobs.append(make_job(ps, family, ("replay_basic", "replay"), mode="sim",
+                                 seed=seed + 7, sim_num=pnum, sim_depth=pdepth, sim_max_resp=pmax,
+                                 prop_id=prop_id, timeout=120 if tier == "quick" else 1500,
+                                 overflow_ok=True, **kw))
     # biggest first so the pool finishes evenly
     jobs.sort(key=lambda j: -(j["sim_num"] * 1000 if j["mode"] == "sim" else S.n_bags(S.n_keys(j["scn"]), j["scn"]["max_resp"])))
     return jobs
@@ -491,7 +502,8 @@ def c05(tier, seed):
         scns.append(s)
     jobs = _value_jobs("C05", "c07", scns, tier, seed,
                        bfs_budget=260 if tier == "quick" else 12000,
-                       sim_budget=450 if tier == "quick" else 8000)
+                       sim_budget=450 if tier == "quick" else 8000,
+                       power=((1, 4, 9), 45, 7, 10 if tier == "quick" else 300))
     if tier == "quick":
         # quick tier: the exhaustive part covers the empty survey only (one state per
         # configuration); the bags come from simulation
@@ -653,7 +665,8 @@ def c13(tier, seed):
         jobs=_value_jobs("C13", "c13", scns, tier, seed, single_pass=True,
                          invariants=("EmitInv", "ThmPwAntisym"),
                          bfs_budget=700 if tier == "quick" else 20000,
-                         sim_budget=300 if tier == "quick" else 10000, sim_extra=2),
+                         sim_budget=300 if tier == "quick" else 10000, sim_extra=2,
+                         power=((1, 3, 8), 30, 6, 12 if tier == "quick" else 400)),
         rule="CAT and MR columns, unweighted / weighted without / with squared weights, mean "
              "responses (Welch); subtotal and difference columns and rows as selected or "
              "compared column; alpha pairs and only-larger flag; column order / hide transforms; x "
